@@ -137,10 +137,20 @@ def dispatch (c : Cmd) (f : Feat) (ct : CType) (v : PolyVars) : Option Slot :=
 
 /-! ## 3. `poly_vars` -/
 
+/-- `str::split(sep)` on the characters: always at least one piece -/
+def splitOnChar (sep : Char) : List Char → List (List Char)
+  | [] => [[]]
+  | c :: rest =>
+    if c = sep then [] :: splitOnChar sep rest
+    else
+      match splitOnChar sep rest with
+      | p :: ps => (c :: p) :: ps
+      | [] => [[c]]
+
 /-- `dispatch.rs: poly_vars`: the set of `,`-separated pieces contains "H" / "T" -/
 def polyVars (c : String) : PolyVars :=
-  let s := c.splitOn ","
-  match s.contains "H", s.contains "T" with
+  let s := splitOnChar ',' c.toList
+  match s.contains ['H'], s.contains ['T'] with
   | true, true => .HT
   | true, false => .H
   | false, true => .T
@@ -508,9 +518,14 @@ def superDigit (d : Nat) : Char :=
   | 3 => '³'
   | _ => Char.ofNat (0x2070 + d)
 
+/-- decimal digits, most significant first (`Digits::into_digits`) -/
+def natDigits (n : Nat) : List Nat :=
+  if n < 10 then [n] else natDigits (n / 10) ++ [n % 10]
+termination_by n
+decreasing_by omega
+
 /-- `yui::util::format::superscript` for a non-negative number -/
-def superscript (n : Nat) : List Char :=
-  (Nat.toDigits 10 n).map (fun c => superDigit (c.toNat - 48))
+def superscript (n : Nat) : List Char := (natDigits n).map superDigit
 
 /-- run-length encoding of a sorted list (what the `BTreeMap<String, usize>` accumulates) -/
 def runs : List (List Char) → List (List Char × Nat)
@@ -539,5 +554,73 @@ coefficients' texts *sorted* (the `BTreeMap` iterates in key order, so only the 
 def rmodStr (sym : List Char) (rank : Nat) (sortedTors : List (List Char)) : List Char :=
   if rank = 0 ∧ sortedTors = [] then ['0']
   else joinWith oplus (freePiece sym rank ++ (runs sortedTors).map (fun (t, k) => torPiece sym t k))
+
+/-! ## 8. A reader for cell texts (the verified inverse of `rmodStr`, see `Proofs/C20.lean`) -/
+
+def isSuper (c : Char) : Bool :=
+  c = '⁰' || c = '¹' || c = '²' || c = '³' || (0x2074 ≤ c.toNat && c.toNat ≤ 0x2079)
+
+def unsuperDigit (c : Char) : Nat :=
+  if c = '¹' then 1 else if c = '²' then 2 else if c = '³' then 3 else c.toNat - 0x2070
+
+def decodeSuper (l : List Char) : Nat := l.foldl (fun a c => 10 * a + unsuperDigit c) 0
+
+/-- split at the first ` ⊕ ` -/
+def breakOplus : List Char → List Char × Option (List Char)
+  | [] => ([], none)
+  | c :: rest =>
+    if c = ' ' ∧ rest.take 2 = ['⊕', ' '] then ([], some (rest.drop 2))
+    else
+      let r := breakOplus rest
+      (c :: r.1, r.2)
+
+def splitOplus : Nat → List Char → List (List Char)
+  | 0, s => [s]
+  | n + 1, s =>
+    match breakOplus s with
+    | (p, none) => [p]
+    | (p, some q) => p :: splitOplus n q
+
+def stripPrefix : List Char → List Char → Option (List Char)
+  | [], s => some s
+  | _ :: _, [] => none
+  | c :: p, d :: s => if c = d then stripPrefix p s else none
+
+/-- `(sym/t)` + optional multiplicity -/
+def readTor (sym piece : List Char) : Option (List Char × Nat) :=
+  match stripPrefix ('(' :: sym ++ ['/']) piece with
+  | none => none
+  | some rest =>
+    let r := rest.reverse
+    let sup := (r.takeWhile isSuper).reverse
+    match r.dropWhile isSuper with
+    | ')' :: tr => some (tr.reverse, if sup.isEmpty then 1 else decodeSuper sup)
+    | _ => none
+
+/-- `sym` + optional rank -/
+def readFree (sym piece : List Char) : Option Nat :=
+  match stripPrefix sym piece with
+  | none => none
+  | some rest => if rest.all isSuper then some (if rest.isEmpty then 1 else decodeSuper rest) else none
+
+def startsParen : List Char → Bool
+  | '(' :: _ => true
+  | _ => false
+
+/-- reads a cell text back into (rank, run-length encoded torsion texts) -/
+def readCell (sym s : List Char) : Option (Nat × List (List Char × Nat)) :=
+  if s = ['0'] then some (0, [])
+  else
+    match splitOplus s.length s with
+    | [] => none
+    | p :: ps =>
+      if startsParen p then
+        match (p :: ps).mapM (readTor sym) with
+        | some ts => some (0, ts)
+        | none => none
+      else
+        match readFree sym p, ps.mapM (readTor sym) with
+        | some r, some ts => some (r, ts)
+        | _, _ => none
 
 end Yuiv.C20
